@@ -116,6 +116,20 @@ impl<F: Fn(pipe::SimplexDirection, usize) + Send + Sync> LeftPipe<F> {
             meta.destination
         );
 
+        #[cfg(trusttunnel_verif)]
+        let mut verif_outcome =
+            crate::verif::udp::Outcome::new("NewConn", meta.source, meta.destination);
+        // The flow is entered into the table only once the forwarder has created it: this
+        // await may fail, and it may be cancelled by the expiry tick of `exchange` (with the
+        // SOCKS5 forwarder it is a TCP connect and a handshake); an entry without a socket
+        // would send the next datagram of the pair to a socket which does not exist
+        self.shared
+            .forwarder_shared
+            .on_new_udp_connection(meta)
+            .await?;
+        #[cfg(trusttunnel_verif)]
+        verif_outcome.ok();
+
         let is_plain_dns = meta.destination.port() == net_utils::PLAIN_DNS_PORT_NUMBER;
         self.shared.udp_connections.lock().unwrap().insert(
             forwarder::UdpDatagramMeta::from(meta),
@@ -136,27 +150,6 @@ impl<F: Fn(pipe::SimplexDirection, usize) + Send + Sync> LeftPipe<F> {
             meta.destination,
             is_plain_dns
         );
-
-        #[cfg(trusttunnel_verif)]
-        let mut verif_outcome =
-            crate::verif::udp::Outcome::new("NewConn", meta.source, meta.destination);
-        if let Err(e) = self
-            .shared
-            .forwarder_shared
-            .on_new_udp_connection(meta)
-            .await
-        {
-            // The flow was not created: do not leave its entry behind, otherwise the next
-            // datagram of the pair is written to a socket which does not exist
-            self.shared
-                .udp_connections
-                .lock()
-                .unwrap()
-                .remove(&forwarder::UdpDatagramMeta::from(meta));
-            return Err(e);
-        }
-        #[cfg(trusttunnel_verif)]
-        verif_outcome.ok();
 
         if let Some(c) = self
             .shared
